@@ -135,7 +135,22 @@ func (a *api4) Classify(err error) string {
 
 func (a *api4) Datagram(id, xid int, kind string) []byte {
 	if kind == "undec" {
-		return []byte{2, 1, 6, 0, byte(id), 1, 2, 3}
+		switch id % 4 {
+		case 0:
+			return []byte{2, 1, 6, 0, byte(id), 1, 2, 3}
+		case 1:
+			return []byte{} // a zero-length datagram is legal UDP
+		case 2: // right header, wrong magic cookie
+			p, _ := dhcpv4.New(dhcpv4.WithTransactionID(xid4(xid)), dhcpv4.WithHwAddr(mac))
+			p.OpCode = dhcpv4.OpcodeBootReply
+			b := p.ToBytes()
+			b[236] ^= 0xff
+			return b
+		default: // an option that overruns the packet
+			p, _ := dhcpv4.New(dhcpv4.WithTransactionID(xid4(xid)), dhcpv4.WithHwAddr(mac))
+			p.OpCode = dhcpv4.OpcodeBootReply
+			return append(p.ToBytes()[:240], 53, 9, 1)
+		}
 	}
 	p, _ := dhcpv4.New(dhcpv4.WithTransactionID(xid4(xid)), dhcpv4.WithHwAddr(mac), dhcpv4.WithMessageType(dhcpv4.MessageTypeOffer),
 		dhcpv4.WithGeneric(dhcpv4.GenericOptionCode(idOpt4), []byte{byte(id >> 8), byte(id)}))
@@ -144,16 +159,36 @@ func (a *api4) Datagram(id, xid int, kind string) []byte {
 	case "wrongop":
 		p.OpCode = dhcpv4.OpcodeBootRequest
 	case "wronghw":
-		switch id % 3 {
+		switch id % 4 {
 		case 0:
 			p.ClientHWAddr = otherMac
+		case 3:
+			p.ClientHWAddr = append(net.HardwareAddr{}, mac[:3]...) // a shorter address that is a prefix of the client's
 		case 1:
 			p.ClientHWAddr = nil // hlen 0: still not this client's address
 		default:
 			p.ClientHWAddr = append(append(net.HardwareAddr{}, mac...), 0) // longer address with the client's as prefix
 		}
 	}
+	if id%5 == 0 { // a datagram that fills the client's read buffer exactly
+		padTo4(p, nclient4.MaxMessageSize)
+	}
 	return p.ToBytes()
+}
+
+// padTo4 adds opaque options until the packet encodes to exactly n bytes (the packet must be at least 3 bytes short)
+func padTo4(p *dhcpv4.DHCPv4, n int) {
+	for code := uint8(150); len(p.ToBytes()) < n; code++ {
+		room := n - len(p.ToBytes())
+		switch {
+		case room >= 300:
+			p.Options[code] = make([]byte, 255)
+		case room-2 <= 255 && room >= 3:
+			p.Options[code] = make([]byte, room-2)
+		default:
+			p.Options[code] = make([]byte, 20)
+		}
+	}
 }
 
 // ------------------------------------------------------------------ nclient6
@@ -245,7 +280,9 @@ func (a *api6) Classify(err error) string {
 
 func (a *api6) Datagram(id, xid int, kind string) []byte {
 	if kind == "undec" {
-		switch id % 4 {
+		switch id % 5 {
+		case 4:
+			return []byte{} // a zero-length datagram is legal UDP
 		case 0:
 			return []byte{7, byte(id)} // truncated header
 		case 1:
@@ -264,6 +301,9 @@ func (a *api6) Datagram(id, xid int, kind string) []byte {
 	// what a server's reply carries; the harness's own marker goes last
 	m.AddOption(dhcpv6.OptClientID(&dhcpv6.DUIDLL{HWType: 1, LinkLayerAddr: mac}))
 	m.AddOption(dhcpv6.OptServerID(&dhcpv6.DUIDLL{HWType: 1, LinkLayerAddr: otherMac}))
+	if id%5 == 0 { // a datagram that fills the client's 1500-byte read buffer exactly
+		m.AddOption(&dhcpv6.OptionGeneric{OptionCode: 65002, OptionData: make([]byte, 1500-len(m.ToBytes())-4-6)})
+	}
 	m.AddOption(&dhcpv6.OptionGeneric{OptionCode: dhcpv6.OptionCode(idOpt6), OptionData: []byte{byte(id >> 8), byte(id)}})
 	return m.ToBytes()
 }
